@@ -60,6 +60,9 @@ package region
 //@   loop 1 decreases[C11] len(b)
 //@   loop 2 invariant[C11] len(b) >= 0 && len(b) < variant(1)
 //@   loop 2 decreases[C11] len(b)
+// a block whose chunks decode to more (or less) than its header declares is rejected: at the end of every block the
+// decoded chunk lengths add up exactly to the declared block length (C15)
+//@   at loopend 1 assert[C15] uncompressedSoFar == uncompressedBlockLen
 
 // ---- hbase:meta row parsing (C11) ----
 
@@ -193,6 +196,9 @@ package region
 // context has expired and whatever kind of call it is (C18)
 //@   ensures[C18] old(len(c.sent)) - len(c.sent) == old(ghostat("net", c)) - ghostat("net", c)
 //@   ensures[C18] len(c.sent) == old(len(c.sent)) || len(c.sent) == old(len(c.sent)) - 1
+// a frame that cannot be attributed to a call (short read, undecodable or unexpected header) is a failure of the
+// connection, so that the reader's caller runs the failure transition (C03)
+//@   ensures[C03] r0 != nil && len(c.sent) == old(len(c.sent)) ==> typeis(r0, "region.ServerError")
 // whoever takes a call out of the sent table completes it (C03): on every path of the reader the call removed is handed
 // to returnResult exactly once (ghost completed), unless its own context has already ended
 // the call completed is the one registered under the call id of the response header (C02)
@@ -257,6 +263,9 @@ package region
 //@   requires inflightInv(c) && netRange(c)
 //@   modifies F.region.client.inFlight, X.net, X.armed
 //@   at call Lock#1 ghost net[c] == ghostat("net", c) + 1
+// the deadline is armed / cleared inside the critical section that updated the counter: outside it, a clear could wipe
+// the deadline another sender has just armed (a silent server would then never be detected)
+//@   at call SetReadDeadline#1 assert[C18] ghost("nheld") > 0
 //@   panics never[C18]
 //@   ensures[C18] ghostat("net", c) == old(ghostat("net", c)) + 1
 //@   ensures[C18] r0 == nil ==> inflightInv(c)
@@ -268,6 +277,9 @@ package region
 //@   requires inflightInv(c) && netRange(c)
 //@   modifies F.region.client.inFlight, X.net, X.armed
 //@   at call Lock#1 ghost net[c] == ghostat("net", c) - 1
+// the deadline is armed / cleared inside the critical section that updated the counter: outside it, a clear could wipe
+// the deadline another sender has just armed (a silent server would then never be detected)
+//@   at call SetReadDeadline#1 assert[C18] ghost("nheld") > 0
 //@   panics never[C18]
 //@   ensures[C18] ghostat("net", c) == old(ghostat("net", c)) - 1
 //@   ensures[C18] r0 == nil ==> inflightInv(c)
